@@ -124,4 +124,34 @@ def zipReplace (l1 l2 : Seq) (c : Cur) (x y : Nat) : Stat × Option (Nat × Nat)
   | some a, some b => (.ok, some (a, b), l1.set (c.pos - 1) x, l2.set (c.pos - 1) y)
   | _, _ => (.errOutOfRange, none, l1, l2)
 
+/-! ## zip cursor over one and the same sequence (the caller passed the same container twice): the one
+sequence is threaded through both halves of each call, first half first -/
+
+def zipNextSelf (l : Seq) (c : Cur) : Stat × Option (Nat × Nat) × Cur :=
+  match l[c.pos]? with
+  | some x => (.ok, some (x, x), { pos := c.pos + 1, removed := false })
+  | none => (.iterEnd, none, c)
+
+/-- removes the element yielded last and then — in the shortened sequence — the element at the same
+position, if there is one -/
+def zipRemoveSelf (l : Seq) (c : Cur) : Stat × Option Nat × Option Nat × Seq × Cur :=
+  if c.removed then (.errValueNotFound, none, none, l, c) else
+  if c.pos = 0 then (.errOutOfRange, none, none, l, c) else
+  match l[c.pos - 1]? with
+  | none => (.errOutOfRange, none, none, l, c)
+  | some x =>
+    let l1 := l.eraseIdx (c.pos - 1)
+    (.ok, some x, l1[c.pos - 1]?, l1.eraseIdx (c.pos - 1), { pos := c.pos - 1, removed := true })
+
+/-- inserts `x` and then `y` at the cursor position: the sequence reads `…, y, x, …` there afterwards -/
+def zipAddSelf (l : Seq) (c : Cur) (x y : Nat) : Stat × Seq × Cur :=
+  if c.pos < l.length then (.ok, (l.insertIdx c.pos x).insertIdx c.pos y, { c with pos := c.pos + 1 })
+  else (.errOutOfRange, l, c)
+
+def zipReplaceSelf (l : Seq) (c : Cur) (x y : Nat) : Stat × Option Nat × Option Nat × Seq :=
+  if c.pos = 0 then (.errOutOfRange, none, none, l) else
+  match l[c.pos - 1]? with
+  | none => (.errOutOfRange, none, none, l)
+  | some a => (.ok, some a, some x, l.set (c.pos - 1) y)
+
 end CC.Spec.DequeSpec
